@@ -63,6 +63,7 @@ extern int sdk_flash_fail_mode; /* 0: returns ERR w/o effect; 1: returns ERR aft
 extern int sdk_flash_crash_at; /* power lost before k-th op: longjmp restart */
 extern int sdk_flash_ops;
 extern int sdk_flash_log;
+extern int sdk_flash_partial;
 
 /* ---- misc ---- */
 extern uint32_t sdk_rng_state;
